@@ -136,7 +136,7 @@ func (p *Prog) runTaint(seed func(v ssa.Value) bool, typeOK func(t types.Type) b
 
 const textA1Atomic = "A1-atomic: fields declared atomics-only (capture state machine, owner token, command counter) are accessed exclusively through sync/atomic"
 const textA1Immutable = "A1-immutable: fields that are immutable after construction are stored only while the object is fresh (in its constructor)"
-const textA1Confined = "A1-confined: per-connection session state (name, user, MULTI queue, watches, protocol version, …) is never touched through a *clientState obtained from the client registry (CLIENT LIST / CLIENT KILL callbacks); selectedDb/ds need clientState.mu for such foreign reads; the connection buffer and socket state are touched only from the connection's run loop"
+const textA1Confined = "A1-confined: per-connection session state (name, user, MULTI queue, watches, protocol version, …) is never touched through a *clientState obtained from the client registry (CLIENT LIST / CLIENT KILL callbacks); selectedDb/ds need clientState.mu for such foreign reads; the connection buffer and socket state are touched only from the connection's run loop; conversely the run loop's goroutine (which handles a termination that may arrive while a command is still executing) touches no session field — those belong to the command goroutine"
 
 // a1ModesOnly restricts ruleA1Modes to the named fields ("clientState.respVersion", ...); nil = all.
 var a1ModesOnly map[string]bool
@@ -278,6 +278,12 @@ func ruleA1Modes(c *Ctx) {
 			}
 			if ok && g.mode == gConfined && a.Owner == "clientState" && (a.Base == nil || !foreign.tainted[a.Base]) {
 				nOwn++
+				// the owner is the connection's command goroutine: the goroutine of the state machine (which reacts to a
+				// termination request while a command may still be in flight) does not touch session state
+				if runRoot != nil && (fn == runRoot || c.M.Reach(runRoot)[fn]) && !(a.Base != nil && isFresh(a.Base)) {
+					c.S.Bad("A1-confined", rm.accKey(a), c.Pos(c.InstrPos(a.In)), fmt.Sprintf("%s touches the session field %s (%s) and runs on the connection's state-machine goroutine (%s): a termination that arrives while a command is executing makes the two goroutines access it without synchronisation", fnName(fn), a.Name, a.rw(), fnName(runRoot)))
+					continue
+				}
 				c.S.OK("A1-confined", rm.accKey(a), c.Pos(c.InstrPos(a.In)), "accessed through the connection's own state (cmdContext.cs / receiver), never through a registry value")
 			}
 		}
